@@ -14,7 +14,7 @@ FEATURES = ('windows', 'timeouts', 'nesting', 'forever', 'failures',
             'critical', 'never', 'slow_cleanup', 'slow_handlers', 'stalls',
             'verbose', 'coro', 'zero_jobs', 'sd_none', 'never_handler',
             'inspect', 'cleanup_exc', 'self_cancel', 'odd_labels',
-            'crit_method', 'odd_objects')
+            'crit_method', 'odd_objects', 'guards')
 
 # probability that a feature is enabled at all in a run
 BASE_PROFILE = {
@@ -23,7 +23,7 @@ BASE_PROFILE = {
     'slow_handlers': 0.3, 'stalls': 0.2, 'verbose': 0.15, 'coro': 0.4,
     'zero_jobs': 0.35, 'sd_none': 0.2, 'never_handler': 0.1, 'inspect': 0.2,
     'cleanup_exc': 0.15, 'self_cancel': 0.15, 'odd_labels': 0.2,
-    'crit_method': 0.25, 'odd_objects': 0.25,
+    'crit_method': 0.25, 'odd_objects': 0.25, 'guards': 0.2,
     'max_jobs': 14, 'max_depth': 3, 'pure_top': 0.3,
 }
 
@@ -74,7 +74,13 @@ class _Gen:
         # instant, things happen: up to a dozen apart)
         if rng.random() < 0.3:
             steps.append(["yield", rng.choice(YIELDS)])
-        steps.append(["sleep", rng.choice(self.palette)])
+        if self.feat['guards'] and rng.random() < 0.35:
+            # an operation the body bounds with asyncio.timeout(), and which
+            # takes a while to give up
+            steps.append(["guard", [rng.choice(self.palette),
+                                    rng.choice((0.25, 0.5, 0.125, 0.75))]])
+        else:
+            steps.append(["sleep", rng.choice(self.palette)])
         if rng.random() < 0.15:
             steps.append(["sleep", rng.choice(self.palette)])
         if rng.random() < 0.3:
